@@ -504,10 +504,22 @@ def history_lemma() -> list:
     return obs
 
 
+def extension_chain_bounded(sess: Session):
+    from bounded import extension_chain as E
+    cases, problems = E.sweep()
+    for k, p_ in enumerate(problems[:3]):
+        sess.violation_direct(f'wn.remove/extensions:bounded#{k}', p_[:1200], {'kind': 'extension-chain'}, True,
+                              functions=('wn._add.remove', 'wn._queries.get_lexicon_extensions'))
+    sess.add_bounded('wn.remove + Lexicon.extensions/extends on extension chains', 'base <- x1 <- x2 <- x3, base <- y1, '
+                     'unrelated lexicon; every depth; each of 5 removals on a fresh database; residue scan of every '
+                     'lexicon-owned column', cases, 'native execution', not problems)
+
+
 def run(sess: Session):
     sess.assume('A-SQLITE', 'A-TXN', 'A-ENGINE')
     sess.trust('SQLite enforces declared foreign keys and ON DELETE actions when PRAGMA foreign_keys=ON',
                'vc/pyvc, vc/sqlvc')
+    extension_chain_bounded(sess)
     schema = load_schema()
     for ob in ddl_obligations(schema):
         sess.check(ob)
